@@ -47,6 +47,11 @@ type Cfg struct {
 	// depth on both sides of the reallocation). Mix: arrays, objects (key "k"), or
 	// alternating, chosen per document.
 	Chain int
+	// Long > 0: strings and keys may also be long: lengths 63..66 and 130 (around the
+	// 64-byte literal/collect buffers of the parsers and the encoders' scratch
+	// space), with Long >= 2 also 255, 256 and 300 (where the length prefix of CBOR
+	// and UBJSON changes width). First byte symbolic, the rest a fixed pattern.
+	Long  int
 	nodes int
 	h     *rt.H
 	seq   int
@@ -81,6 +86,24 @@ func Value(h *rt.H, c *Cfg) *Node {
 }
 
 func (c *Cfg) str(what string) []byte {
+	if c.Long > 0 {
+		lens := []int{0, 63, 64, 65, 66, 130, 255, 256, 300}
+		max := 5
+		if c.Long >= 2 {
+			max = 8
+		}
+		if i := c.h.Choose(what+"long", 0, max); i > 0 {
+			b := make([]byte, lens[i])
+			copy(b, c.h.Bytes(what, 1))
+			if c.Small || c.ASCII {
+				c.h.Assume(b[0] >= 'a' && b[0] <= 'z')
+			}
+			for j := 1; j < len(b); j++ {
+				b[j] = byte('a' + j%26)
+			}
+			return b
+		}
+	}
 	n := c.h.Choose(what+"len", 0, c.StrLen)
 	b := c.h.Bytes(what, n)
 	if c.Small {
